@@ -34,6 +34,7 @@ def run(ctx):
     R.rule("C18-R1", "tile size / increment embedded only parenthesised or tighter-binding", floor=10)
     R.rule("C18-R2", "inner loop bound offset = block loop step", floor=3)
     R.rule("C18-R3", "bounds check applied by default with the original operator/bound/iterator", floor=4)
+    R.rule("C18-R4", "inner loop comparison is strict whenever the original comparison is inclusive, for both operand orders", floor=2)
 
     for name in ("setupBlockForStatement", "setupInnerForStatement", "setupCheckStatement"):
         f = prog.fn(T + name)
@@ -87,6 +88,52 @@ def run(ctx):
     mult = [n for n in sb.walk() if n["k"] == "CXXOperatorCallExpr" and n.get("op") == "*" and callee(n).startswith("occa::lang::operator")]
     ok = len(mult) == 1 and "tileSizeExpr" in noid(render(mult[0], False)) and "increment" in noid(render(mult[0], False))
     R.ob("C18-R2", ok, sb.q, "block step = (TILE) * (INC) for += / -=", sb.site(mult[0]) if mult else sb.relfile, "the block loop advances by tile size times the original increment")
+
+    # ---- R4 --------------------------------------------------------------------------
+    # the inner loop runs over [blockIterator, blockIterator + step): its comparison against `bounds` must be strict. The original
+    # operator may be re-used only where it is known not to be <= / >=.
+    cfgi = si.cfg
+    INi = cfgi.facts_in()
+    INCL = ("lessThanEq", "greaterThanEq")
+
+    def op_cases(e, excluded):
+        """[(operator description, set of inclusive flags known false)] for an operator-valued expression"""
+        e = strip(e)
+        if e["k"] == "ConditionalOperator":
+            cond = noid(render(kids(e)[0], False))
+            tested = {f_ for f_ in INCL if f_ in cond}
+            return op_cases(kids(e)[1], excluded) + op_cases(kids(e)[2], excluded | tested)
+        if e["k"] == "DeclRefExpr" and e.get("loc"):
+            out = []
+            for dn in si.local_defs().get(e["d"], []):
+                if dn["k"] == "VarDecl" and kids(dn):
+                    init = strip(kids(dn)[0])
+                    if init["k"] in ("ConditionalOperator",) or (init["k"] == "DeclRefExpr" and init.get("n", "").startswith("occa::lang::op::")):
+                        out += op_cases(init, excluded)
+                    else:
+                        out.append((noid(render(init, False)), excluded))
+            return out or [(noid(render(e, False)), excluded)]
+        return [(noid(render(e, False)), excluded)]
+    inner_checks = [c for c in si.walk() if is_call(c) and callee(c) == "occa::lang::expr::binaryOpExpr" and any("bounds" == noid(render(a, False)) for a in call_args(c)[1:])]
+    if len(inner_checks) < 2:
+        raise AnalysisBroken("setupInnerForStatement: inner check constructions not found")
+    for c in inner_checks:
+        fs = {(noid(k), pol) for (k, pol) in cfgi.facts_at(c, INi)}
+        known_false = set()
+        for (k, pol) in fs:
+            if not pol and "checkOpType" in k and any(f_ in k for f_ in INCL):
+                known_false |= {f_ for f_ in INCL if f_ in k}
+        bad = []
+        for desc, excl in op_cases(call_args(c)[0], set()):
+            strict_const = desc in ("occa::lang::op::lessThan", "occa::lang::op::greaterThan")
+            if strict_const:
+                continue
+            if (excl | known_false) >= set(INCL):
+                continue      # the original operator, known not to be inclusive here
+            bad.append(desc)
+        R.ob("C18-R4", not bad, si.q, "inner check operator: %s" % noid(render(call_args(c)[0], False))[:50], si.site(c),
+             "strict operator, or the original one where it is known to be strict" if not bad else
+             "the inner loop may be compared with the original inclusive operator (%s): each tile then covers one value more than the block step and neighbouring tiles overlap" % bad)
 
     # ---- R3 --------------------------------------------------------------------------
     sc = prog.fn(T + "setupCheckStatement")
